@@ -319,7 +319,9 @@ def assemble(spec, i=0):
     d = pkt.dhcp(op=rec.get("op", 1), htype=rec.get("htype", 1), hlen=rec.get("hlen", 6), hops=rec.get("hops", 0), xid=rec.get("xid", 0),
                  secs=rec.get("secs", 0), flags=rec.get("flags", 0), ciaddr=IPAddr(bytes(rec.get("ci", b"\0" * 4))),
                  yiaddr=IPAddr(bytes(rec.get("yi", b"\0" * 4))), siaddr=IPAddr(bytes(rec.get("si", b"\0" * 4))),
-                 giaddr=IPAddr(bytes(rec.get("gi", b"\0" * 4))), chaddr=EthAddr(bytes(rec.get("chaddr", b"\0" * 6))[:6]),
+                 giaddr=IPAddr(bytes(rec.get("gi", b"\0" * 4))),
+                 chaddr=(EthAddr(bytes(rec.get("chaddr", b"\0" * 6))[:6]) if rec.get("hlen", 6) == 6
+                         else (bytes(rec.get("chaddr", b"")) + b"\0" * 16)[:16]),
                  sname=bytes(rec.get("sname", b"")), file=bytes(rec.get("file", b"")))
     for o in rec.get("opts", []):
       d.add_option(_dhcp_option(L, o), o["code"])
@@ -535,8 +537,9 @@ def _carrier(d, off):
   return cur
 
 
-def judge(spec, out):
-  """assemble, pack, parse, compare, dissect.  Appends violations to out; returns labels info."""
+def judge(spec, out, edits=None):
+  """assemble, pack, parse, compare, dissect.  Appends violations to out; returns labels info.
+  edits: None (no edit-after-parse clause), "all", or an int selecting which editable targets are exercised."""
   L = setup()
   packet_base = L["packet_base"]
   pkt = L["pkt"]
@@ -651,7 +654,230 @@ def judge(spec, out):
             at = l["p"]
         out.fail("repack", "%s: re-serialising the parsed packet differs from the first serialisation at offset %d (%s): %s != %s"
                  % (shape, n, at, b2[n:n + 8].hex(), b[n:n + 8].hex()), at=at)
+      elif edits is not None:
+        _edit_clause(b, d, shape, out, edits)
   return b
+
+
+# --------------------------------------------------------------------------- edit after parse
+
+# public header fields a packet-rewriting application may set on a parsed packet: (bit width | "eth" | "ip4" | "ip6" | "bool").
+# Kept out on purpose: demultiplexing keys (ethernet.type, vlan.eth_type, ipv4.protocol / frag, ipv6.next_header_type, icmp.type,
+# icmpv6.type, eapol.type, eap.code, gre.type, mpls.s, llc SAPs / control, UDP ports when an application parser follows), fields
+# the library derives in hdr() (lengths, checksums, tcp.off, ipv4.hl / raw_options), DHCP options (the option dictionary tracks
+# shallow changes only, by design), and values that are absent (gre.key / seq / vxlan.vni == None).
+_EDITABLE = {
+  "ethernet": {"dst": "eth", "src": "eth"},
+  "vlan": {"pcp": 3, "cfi": 1, "id": 12},
+  "arp": {"opcode": 16, "hwsrc": "eth", "hwdst": "eth", "protosrc": "ip4", "protodst": "ip4"},
+  "ipv4": {"tos": 8, "id": 16, "flags": 3, "ttl": 8, "srcip": "ip4", "dstip": "ip4"},
+  "ipv6": {"tc": 8, "flow": 20, "hop_limit": 8, "srcip": "ip6", "dstip": "ip6"},
+  "icmp": {"code": 8}, "echo": {"id": 16, "seq": 16}, "unreach": {"unused": 16, "next_mtu": 16}, "time_exceeded": {"unused": 32},
+  "icmpv6": {"code": 8}, "PacketTooBig": {"mtu": 32},
+  "NDRouterAdvertisement": {"hop_limit": 8, "is_managed": "bool", "is_other": "bool", "lifetime": 16, "reachable": 32, "retrans_timer": 32},
+  "NDNeighborSolicitation": {"target": "ip6"},
+  "NDNeighborAdvertisement": {"target": "ip6", "is_router": "bool", "is_solicited": "bool", "is_override": "bool"},
+  "tcp": {"srcport": 16, "dstport": 16, "seq": 32, "ack": 32, "res": 4, "flags": 8, "win": 16, "urg": 16},
+  "udp": {"srcport": 16, "dstport": 16},
+  "dhcp": {"op": 8, "hops": 8, "xid": 32, "secs": 16, "flags": 16, "ciaddr": "ip4", "yiaddr": "ip4", "siaddr": "ip4", "giaddr": "ip4"},
+  "dns": {"id": 16, "qr": "bool", "aa": "bool", "tc": "bool", "rd": "bool", "ra": "bool", "z": "bool", "ad": "bool", "cd": "bool", "rcode": 4},
+  "mpls": {"label": 20, "tc": 3, "ttl": 8},
+  "gre": {"key": 32, "seq": 32, "route_offset": 16, "strict_source_route": "bool", "recursion": 3},
+  "vxlan": {"vni": 24},
+  "igmp": {"max_response_time": 8, "address": "ip4"},
+  "rip": {"command": 8, "version": 8},
+  "eapol": {"version": 8}, "eap": {"id": 8},
+}
+# fields hdr() recomputes: not required to stay what they were when something else is edited
+_DERIVED = {("ipv4", "csum"), ("ipv4", "iplen"), ("ipv6", "payload_length"), ("udp", "csum"), ("udp", "len"), ("tcp", "csum"), ("tcp", "off"),
+            ("icmp", "csum"), ("icmpv6", "csum"), ("igmp", "csum"), ("gre", "csum")}
+
+
+def _other_value(kind, v, L):
+  if kind == "bool":
+    return not v
+  if kind == "eth":
+    r = v.raw
+    return L["EthAddr"](r[:5] + bytes([r[5] ^ 1]))
+  if kind == "ip4":
+    r = v.raw
+    return L["IPAddr"](r[:3] + bytes([r[3] ^ 1]))
+  if kind == "ip6":
+    r = v.raw
+    return L["IPAddr6"](r[:15] + bytes([r[15] ^ 1]), raw=True)
+  return v ^ 1            # an int of the given width: flipping the low bit stays in range
+
+
+def _edit_targets(layers, L):
+  """[(label, layer index, apply(obj_layers))]: every edit applicable to this parsed chain"""
+  out = []
+  for i, x in enumerate(layers):
+    cn = type(x).__name__
+    for f, kind in sorted(_EDITABLE.get(cn, {}).items()):
+      v = getattr(x, f, None)
+      if v is None:
+        continue
+      if cn == "udp" and not isinstance(x.next, bytes):
+        continue                      # the ports select the application parser
+      if cn == "udp" and (v ^ 1) in P.UDP_APP_PORTS:
+        continue
+      if cn == "igmp" and f == "max_response_time" and x.ver_and_type == 0x22:
+        continue                      # not a field of a v3 report
+      if cn == "gre" and f == "route_offset" and x.csum is None and x.routing is None:
+        continue                      # no checksum/offset word on the wire
+      if kind in ("eth", "ip4", "ip6") and not hasattr(v, "raw"):
+        continue
+
+      def ap(ls, i=i, f=f, kind=kind):
+        setattr(ls[i], f, _other_value(kind, getattr(ls[i], f), L))
+      out.append(("%s.%s" % (cn, f), i, ap))
+    # values of options / TLVs / records, changed in place
+    if cn == "tcp":
+      for k, o in enumerate(x.options):
+        if type(o).__name__ == "tcp_opt" and o.type in (2, 3) and isinstance(o.val, int):
+          def ap(ls, i=i, k=k):
+            ls[i].options[k].val ^= 1
+          out.append(("tcp.options[].val", i, ap))
+        elif type(o).__name__ == "tcp_opt" and o.type == 8 and o.val is not None:
+          def ap(ls, i=i, k=k):
+            v = ls[i].options[k].val
+            ls[i].options[k].val = (v[0] ^ 1, v[1])
+          out.append(("tcp.options[].val", i, ap))
+    elif cn == "lldp":
+      for k, t in enumerate(x.tlvs):
+        tn = type(t).__name__
+        if tn == "ttl":
+          def ap(ls, i=i, k=k):
+            ls[i].tlvs[k].ttl ^= 1
+          out.append(("lldp.tlvs[].ttl", i, ap))
+        elif tn in ("system_name", "system_description", "port_description") and isinstance(t.payload, bytes):
+          def ap(ls, i=i, k=k):
+            pl = ls[i].tlvs[k].payload
+            ls[i].tlvs[k].payload = (pl + b"!") if len(pl) < 511 else pl[:-1]
+          out.append(("lldp.tlvs[].payload", i, ap))
+    elif cn == "dns":
+      for sec in ("answers", "authorities", "additional"):
+        for k, r in enumerate(getattr(x, sec)):
+          def ap(ls, i=i, k=k, sec=sec):
+            getattr(ls[i], sec)[k].ttl ^= 1
+          out.append(("dns.%s[].ttl" % sec, i, ap))
+          break
+      if x.questions:
+        def ap(ls, i=i):
+          ls[i].questions[0].qclass ^= 1
+        out.append(("dns.questions[].qclass", i, ap))
+    elif cn == "rip":
+      for k, e in enumerate(x.entries[:2]):
+        def ap(ls, i=i, k=k):
+          ls[i].entries[k].route_tag ^= 1
+        out.append(("rip.entries[].route_tag", i, ap))
+    elif cn == "igmp":
+      for k, g in enumerate(x.group_records[:2]):
+        def ap(ls, i=i, k=k):
+          ls[i].group_records[k].type ^= 1
+        out.append(("igmp.group_records[].type", i, ap))
+    elif cn in ("NDRouterSolicitation", "NDRouterAdvertisement", "NDNeighborSolicitation", "NDNeighborAdvertisement"):
+      for k, o in enumerate(x.options):
+        if type(o).__name__ == "NDOptMTU":
+          def ap(ls, i=i, k=k):
+            ls[i].options[k].mtu ^= 1
+          out.append(("nd.options[].mtu", i, ap))
+        elif type(o).__name__ in ("NDOptSourceLinkLayerAddress", "NDOptTargetLinkLayerAddress"):
+          def ap(ls, i=i, k=k):
+            ls[i].options[k].address = _other_value("eth", ls[i].options[k].address, L)
+          out.append(("nd.options[].address", i, ap))
+  return out
+
+
+def _snapshot(layers, L):
+  return [(type(x).__name__, {f: _field_norm(type(x).__name__, f, getattr(x, f, _MISSING), L) for f in _FIELDS.get(type(x).__name__, [])})
+          for x in layers]
+
+
+def _edit_clause(b, d0, shape, out, edits):
+  """metamorphic strengthening of "serialising the parsed result": q = ethernet(b); one field (or one option / TLV value, in place)
+  of one layer is set to another valid value; b2 = q.pack(); r = ethernet(b2).  The edited value must read back, every other judged
+  field and the payload must be unchanged, b2's lengths and checksums must be valid per the reference, and r.pack() == b2."""
+  L = setup()
+  pkt, packet_base = L["pkt"], L["packet_base"]
+  q0 = pkt.ethernet(b)
+  targets = _edit_targets(_chain(q0, packet_base)[0], L)
+  if not targets:
+    return
+  if edits == "all":
+    chosen = list(range(len(targets)))
+  else:
+    chosen = sorted({(edits + j * 7) % len(targets) for j in range(3)})
+  pay0 = b[d0.payload[0]:d0.payload[1]] if d0.payload else None
+  for ti in chosen:
+    label = targets[ti][0]
+    q = pkt.ethernet(b)                      # a fresh parse for every edit
+    ql, qend = _chain(q, packet_base)
+    before = _snapshot(ql, L)
+    i = targets[ti][1]
+    try:
+      _edit_targets(ql, L)[ti][2](ql)
+      for x in ql:                           # documented: a numeric gre.csum is emitted as is; True asks for recomputation
+        if type(x).__name__ == "gre" and x.csum is not None:
+          x.csum = True
+      b2 = q.pack()
+    except Exception as e:
+      _exc(out, e, "edit", edited=label, what="pack")
+      continue
+    out.label("edited:" + label.split(".")[0])
+    after = _snapshot(ql, L)
+    # the edit must not disturb any other judged field of the object
+    ecls, efield = label.split(".", 1)
+    efield = efield.split("[")[0]
+    for li, ((cn, fa), (_, fb)) in enumerate(zip(before, after)):
+      for f in fa:
+        if (li == i and f == efield) or (cn, f) in _DERIVED:
+          continue
+        if fa[f] != fb[f]:
+          out.fail("edit", "%s: setting %s also changed %s.%s from %s to %s" % (shape, label, cn, f, _short(fa[f]), _short(fb[f])),
+                   edited=label, what="disturbs:%s.%s" % (cn, f))
+    if after[i][1].get(efield) == before[i][1].get(efield):
+      raise HarnessError("edit %s of %s did not change the object" % (label, shape))
+    d2 = P.dissect(b2)
+    if d2.error is not None or d2.protos() != d0.protos():
+      out.fail("edit", "%s: after setting %s the re-serialised frame no longer dissects as before: %s %s (was %s)\n%s"
+               % (shape, label, d2.error, d2.protos(), d0.protos(), b2.hex()[:600]), edited=label, what="wire-structure")
+      continue
+    for c in d2.bad_checks():
+      out.fail("edit", "%s: after setting %s, %s at offset %d of the re-serialised frame is %r, the reference says %r\n%s"
+               % (shape, label, c["name"], c["off"], c["got"], c["want"], b2.hex()[:600]), edited=label, what="wire:" + c["name"])
+    if pay0 is not None and (b2[d2.payload[0]:d2.payload[1]] if d2.payload else None) != pay0:
+      out.fail("edit", "%s: after setting %s the payload in the re-serialised frame changed" % (shape, label), edited=label, what="payload")
+    try:
+      r = pkt.ethernet(b2)
+    except Exception as e:
+      _exc(out, e, "edit", edited=label, what="parse")
+      continue
+    rl, rend = _chain(r, packet_base)
+    got = _snapshot(rl, L)
+    if [c for c, _ in got] != [c for c, _ in after] or any(x.parsed is not True for x in rl):
+      out.fail("edit", "%s: after setting %s the re-serialised frame parses as %s" % (shape, label, [c for c, _ in got]), edited=label, what="chain")
+      continue
+    bad = False
+    for (cn, fa), (_, fr) in zip(after, got):
+      for f in fa:
+        if fa[f] != fr[f]:
+          bad = True
+          out.fail("edit", "%s: after setting %s and re-serialising, %s.%s reads %s, the edited object says %s"
+                   % (shape, label, cn, f, _short(fr[f]), _short(fa[f])), edited=label, what="field:%s.%s" % (cn, f))
+    a = qend if qend is not None else b""
+    c = rend if rend is not None else b""
+    if not bad and a != c:
+      out.fail("edit", "%s: after setting %s the innermost payload changed" % (shape, label), edited=label, what="payload")
+      bad = True
+    if not bad:
+      try:
+        b3 = r.pack()
+      except Exception as e:
+        _exc(out, e, "edit", edited=label, what="repack")
+        continue
+      if b3 != b2:
+        out.fail("edit", "%s: after setting %s, re-serialising the re-parsed packet gives other bytes" % (shape, label), edited=label, what="repack")
 
 
 def _variants(spec):
@@ -763,8 +989,8 @@ def run_case(case):
       out.label("ipv6-ext-headers")
     if r["t"] == "tcp" and r.get("opts"):
       out.label("tcp-options")
-  for v in variants:
-    b = judge(v, out)
+  for vi, v in enumerate(variants):
+    b = judge(v, out, edits=case.get("edit") if vi == 0 or case.get("edit") == "all" else None)
     if v[-1]["t"] == "raw":
       n = v[-1].get("len", len(v[-1].get("data", b"")))
       out.label("payload-odd" if n % 2 else "payload-even")
@@ -787,9 +1013,9 @@ def enum_catalog(tier):
       for n in lens:
         if n > 1400 and any(r["t"] in ("llc", "gre", "vxlan") for r in spec):
           continue
-        yield {"spec": cats[n][idx][1], "shape": "catalog:" + name}
+        yield {"spec": cats[n][idx][1], "shape": "catalog:" + name, "edit": "all"}
     else:
-      yield {"spec": spec, "shape": "catalog:" + name}
+      yield {"spec": spec, "shape": "catalog:" + name, "edit": "all"}
 
 
 def _unfolded(data):
@@ -965,7 +1191,7 @@ def enum_limits(tier):
   for n in (0, 1, 255, 1400):
     out.append(("eapol-key-%d" % n, [P._eth(dst=bytes.fromhex("0180c2000003")), {"t": "eapol", "ver": 1, "type": 3}, P._raw(n)]))
   for name, spec in out:
-    yield {"spec": spec, "shape": "limits:" + name}
+    yield {"spec": spec, "shape": "limits:" + name, "edit": "all"}
 
 
 def plan(tier):
@@ -977,6 +1203,6 @@ def plan(tier):
              Enum("length-limits", lambda: enum_limits(tier), shards=4)]
   for name in sorted(shapes):
     def mk(name=name):
-      return shapes[name].map(lambda s, name=name: {"spec": s, "shape": name})
+      return st.tuples(shapes[name], st.integers(0, 999)).map(lambda t, name=name: {"spec": t[0], "shape": name, "edit": t[1]})
     drivers.append(Hyp("shape:" + name, mk, examples=per, shards=1 if tier == "quick" else 4, max_shrink_s=20))
   return drivers
